@@ -71,7 +71,7 @@ def cats(spec, m: str = "") -> str:
 
 
 def tasks(thorough: bool):
-    maxf, dm, dv = (3, 4, 2) if thorough else (2, 3, 1)
+    maxf, dm, dv = (3, 3, 2) if thorough else (2, 3, 1)
     vecs = G.enumerate_models(dm, maxf)
     out = []
     for v in vecs:
